@@ -4,8 +4,8 @@
    replays of the known findings (one payload per family of K0, and one per entry
    of K0), and ordinary payloads identified as published. *)
 From Coq Require Import Lia.
-From MS Require Import Smack Proto Spec.AppView Spec.RefSig Spec.C10 Spec.C10Known Instance
-  Proofs.Tactics Proofs.SmackSeg Proofs.C10Sound Proofs.C10Seg Proofs.C10Dispatch.
+From MS Require Import Smack Proto Spec.AppView Spec.RefSig Spec.C10 Spec.C10Known Spec.PendingBound Instance
+  Proofs.Tactics Proofs.SmackSeg Proofs.C10Sound Proofs.C10Seg Proofs.PendingBound Proofs.C10Dispatch.
 
 Definition cur_tbl : smack := e_proto_tbl the_env.
 
@@ -23,6 +23,31 @@ Lemma cur_pre_parts : sm_rows cur_tbl <= TWO24 /\ 0 < sm_rows cur_tbl /\ 0 < sm_
 Proof.
   pose proof cur_pre as H. unfold tbl_pre in H. rewrite !andb_true_iff in H.
   destruct H as [[H1 H2] H3]. apply N.leb_le in H1. apply N.ltb_lt in H2. apply N.ltb_lt in H3. tauto.
+Qed.
+
+(* the bounded prefix buffer of proto::repl loses nothing: a stream whose first
+   PENDING_MAX + 1 bytes complete no signature never completes one (the tight value on
+   the current table is 28) *)
+Lemma cur_ident_bound : ident_bound_ok cur_tbl 65 = true.
+Proof. vm_compute. reflexivity. Qed.
+Lemma cur_ident_bound_28 : ident_bound_ok cur_tbl 28 = true /\ ident_bound_ok cur_tbl 27 = false.
+Proof. vm_compute. split; reflexivity. Qed.
+
+Theorem current_ident_within s a i : bytes_ok (s ++ a) = true ->
+  tcp_first_id the_env s = None -> tcp_first_id the_env (s ++ a) = Some i ->
+  (length s < 28)%nat /\ lenN s <= PENDING_MAX.
+Proof.
+  intros Hb Hs Hsa. destruct cur_pre_parts as (Hsz & H0 & H1).
+  rewrite tcp_first_id_tbl_eq in Hs, Hsa.
+  pose proof (ident_within cur_tbl 28 cur_smack_ok Hsz H0 H1 (proj1 cur_ident_bound_28) s a i Hb Hs Hsa) as H.
+  split; [exact H|]. unfold PENDING_MAX, lenN. lia.
+Qed.
+Theorem current_unidentified_forever s a : bytes_ok (s ++ a) = true -> (28 <= length s)%nat ->
+  tcp_first_id the_env s = None -> tcp_first_id the_env (s ++ a) = None.
+Proof.
+  intros Hb Hl Hs. destruct cur_pre_parts as (Hsz & H0 & H1).
+  rewrite tcp_first_id_tbl_eq in *.
+  exact (ident_bound cur_tbl 28 cur_smack_ok Hsz H0 H1 (proj1 cur_ident_bound_28) s a Hl Hb Hs).
 Qed.
 
 (* ---- identification = reference, outside the known class, for strings of every length ---- *)
@@ -75,7 +100,8 @@ Qed.
 Theorem current_no_signature_tcp clk ci p : bytes_ok p = true -> D0x_tcp K0 p = false ->
   ref_tcp p = None ->
   exists st, proto_repl_tcp the_env clk ci tcb_new p =
-             Ok (ci, {| t_smack := st; t_proto := PROTO_NONE; t_pstate := None |}, None).
+             Ok (ci, {| t_smack := st; t_proto := PROTO_NONE; t_pstate := None;
+                        t_pending := if lenN p <=? PENDING_MAX then p else [] |}, None).
 Proof.
   intros Hp Hd Hr. apply dispatch_tcp_none. rewrite (proj2 (current_ident_refined p Hp) Hd). exact Hr.
 Qed.
@@ -88,7 +114,7 @@ Qed.
 Theorem current_signature_tcp clk ci p id : bytes_ok p = true -> D0x_tcp K0 p = false ->
   ref_tcp p = Some id ->
   exists st, proto_repl_tcp the_env clk ci tcb_new p =
-    (let tc1 := {| t_smack := st; t_proto := id; t_pstate := None |} in
+    (let tc1 := {| t_smack := st; t_proto := id; t_pstate := None; t_pending := [] |} in
      do r <- dispatch the_env clk ci id (Some tc1) p;
      let '(ci', t', out) := r in Ok (ci', match t' with Some x => x | None => tc1 end, out)).
 Proof.
@@ -96,17 +122,18 @@ Proof.
 Qed.
 
 (* over TCP, however the leading bytes are cut: the segments before the one in
-   which the reference completes a signature are not answered, and that segment is
-   dispatched under the reference's id *)
+   which the reference completes a signature are not answered (the control block keeps
+   them), and that segment is dispatched under the reference's id, the handler being
+   given the whole stream so far *)
 Theorem current_segmentation clk ci segs a id :
   bytes_ok (concat segs ++ a) = true -> D0_tcp K0 (concat segs ++ a) = false ->
   ref_tcp (concat segs) = None -> ref_tcp (concat segs ++ a) = Some id ->
   exists st1 st',
-    tcp_feed the_env clk ci tcb_new segs =
-      Ok (ci, {| t_smack := st1; t_proto := PROTO_NONE; t_pstate := None |}, repeat None (length segs)) /\
-    proto_repl_tcp the_env clk ci {| t_smack := st1; t_proto := PROTO_NONE; t_pstate := None |} a =
-      (let tc1 := {| t_smack := st'; t_proto := id; t_pstate := None |} in
-       do r <- dispatch the_env clk ci id (Some tc1) a;
+    let tc0 := {| t_smack := st1; t_proto := PROTO_NONE; t_pstate := None; t_pending := concat segs |} in
+    tcp_feed the_env clk ci tcb_new segs = Ok (ci, tc0, repeat None (length segs)) /\
+    proto_repl_tcp the_env clk ci tc0 a =
+      (let tc1 := {| t_smack := st'; t_proto := id; t_pstate := None; t_pending := [] |} in
+       do r <- dispatch the_env clk ci id (Some tc1) (concat segs ++ a);
        let '(ci', t', out) := r in Ok (ci', match t' with Some x => x | None => tc1 end, out)).
 Proof.
   intros Hb Hd Hn Hs.
@@ -114,9 +141,12 @@ Proof.
   assert (Hb1 : bytes_ok (concat segs) = true).
   { unfold bytes_ok in *. rewrite forallb_app in Hb. apply andb_true_iff in Hb. exact (proj1 Hb). }
   pose proof (d0_run_prefix K0 (concat segs) a r_init Hd) as Hd1.
+  assert (Hn' : tcp_first_id the_env (concat segs) = None) by (rewrite (current_ident_tcp _ Hb1 Hd1); exact Hn).
+  assert (Hs' : tcp_first_id the_env (concat segs ++ a) = Some id) by (rewrite (current_ident_tcp _ Hb Hd); exact Hs).
   apply (tcp_feed_first_id the_env clk ci cur_smack_ok Hsz segs a id H0 H1).
-  - rewrite <- tcp_first_id_tbl_eq, (current_ident_tcp _ Hb1 Hd1). exact Hn.
-  - rewrite <- tcp_first_id_tbl_eq, (current_ident_tcp _ Hb Hd). exact Hs.
+  - exact (proj2 (current_ident_within _ _ _ Hb Hn' Hs')).
+  - rewrite <- tcp_first_id_tbl_eq. exact Hn'.
+  - rewrite <- tcp_first_id_tbl_eq. exact Hs'.
 Qed.
 
 (* ---- every raw disagreement of the current table lies in the known class,
